@@ -81,7 +81,15 @@ fn run<T: Scalar>(op: Op, rng: &mut Rng, out: &mut TrialOut, cfg_trial: u64) {
     let first_some = none_a.max(none_b);
     for i in 0..len {
         let va = value(rng, clip, false);
-        let vb = value(rng, clip, div);
+        let mut vb = value(rng, clip, div);
+        // one pair in twelve: b is the negative (or the same-sign twin) of a float adjacent to a, so
+        // that a + b (resp. a - b) is a single ulp - a result that is exact and must be reported as is
+        if va != 0.0 && va.is_finite() && rng.chance(1, 12) {
+            let near = f64::from_bits(va.to_bits() + 1 + rng.below(2));
+            // (at f32 the neighbour must be one of a's f32 neighbours)
+            let near = if T::NAME == "f32" { f32::from_bits((va as f32).to_bits() + 1) as f64 } else { near };
+            vb = if rng.coin() { -near } else { near };
+        }
         let sync = i >= first_some && i % 3 == 0;
         a1.push(if i < none_a { None } else { Some(va) });
         b1.push(if i < none_b { None } else { Some(vb) });
@@ -281,7 +289,7 @@ impl Monitor for C14 {
         v
     }
     fn rule(&self) -> String {
-        "trial = (combinator kind, scalar, seeded script pair): children are Script views with a None prefix of 0..9 steps and then prescribed values (zeros, -0, clip, clip±1/4, denormal, random dyadics; non-zero divisor), raw inputs are unrelated noise; every update is compared with the operation applied to the children's current outputs (to_bits identity; by value for GTE/LTE). distinct = distinct (kind, scalar, trial stream); non-trivial = at least one comparison made.".into()
+        "trial = (combinator kind, scalar, seeded script pair): children are Script views with a None prefix of 0..9 steps and then prescribed values (zeros, -0, clip, clip±1/4, denormal, random dyadics, pairs that are adjacent floats of equal or opposite sign; non-zero divisor), raw inputs are unrelated noise; every update is compared with the operation applied to the children's current outputs (to_bits identity; by value for GTE/LTE). distinct = distinct (kind, scalar, trial stream); non-trivial = at least one comparison made.".into()
     }
     fn assumptions(&self) -> Vec<String> {
         vec![
